@@ -228,14 +228,12 @@ func (a *analyzer) prescanExport(expr *lisp.LVal, scope *Scope, pkg string) {
 }
 
 func (a *analyzer) prescanUsePackage(expr *lisp.LVal, scope *Scope, currentPkg string) {
-	if astutil.ArgCount(expr) < 1 {
-		return
+	// use-package takes any number of packages.
+	for _, arg := range expr.Cells[1:] {
+		if pkgName := extractPackageName(arg); pkgName != "" {
+			a.importPackageSymbols(scope, pkgName, currentPkg)
+		}
 	}
-	pkgName := extractPackageName(expr.Cells[1])
-	if pkgName == "" {
-		return
-	}
-	a.importPackageSymbols(scope, pkgName, currentPkg)
 }
 
 // importPackageSymbols imports all exported symbols from pkgName into scope
